@@ -1,0 +1,85 @@
+//go:build verif
+
+package sensors
+
+// Contracts for package sensors, read by /verif/govc (comment-only file, compiled only with -tags verif).
+
+//@ ghost var lastValue float64
+
+//@ pure sensorWF(s Sensor) bool = s != nil && (s is *HwmonSensor ==> s.(*HwmonSensor) != nil) && (s is *FileSensor ==> s.(*FileSensor) != nil && s.(*FileSensor).Config.File != nil) && (s is *CmdSensor ==> s.(*CmdSensor) != nil && s.(*CmdSensor).Config.Cmd != nil) && (s is *VirtualSensor ==> s.(*VirtualSensor) != nil)
+//@ pure avgOf(s Sensor) float64 = s is *HwmonSensor ? s.(*HwmonSensor).MovingAvg : (s is *FileSensor ? s.(*FileSensor).MovingAvg : (s is *CmdSensor ? s.(*CmdSensor).MovingAvg : s.(*VirtualSensor).Value))
+
+// ---- hwmon ---------------------------------------------------------------------------------------
+//@ func (*HwmonSensor).GetId
+//@   ensures result == sensor.Config.ID
+//@   modifies nothing
+//@ func (*HwmonSensor).GetValue
+//@   returns (result, err)
+//@   ghostret lastValue := result
+//@   ensures same(lastValue, result)
+//@   props C08
+//@   ensures[C08.propagate] lastReadFailed ==> err != nil
+//@   ensures[C08.finite]    err == nil ==> fin(result)
+//@   ensures[C08.value]     err == nil ==> real(result) == real(fileInt[sensor.Input]) || !(-9007199254740992 <= fileInt[sensor.Input] && fileInt[sensor.Input] <= 9007199254740992)
+//@   modifies lastReadFailed, lastValue
+//@ func (*HwmonSensor).GetMovingAvg
+//@   ensures same(avg, sensor.MovingAvg)
+//@   modifies nothing
+//@ func (*HwmonSensor).SetMovingAvg
+//@   ensures same(sensor.MovingAvg, avg)
+//@   modifies sensor.MovingAvg
+
+// ---- file ----------------------------------------------------------------------------------------
+//@ func (*FileSensor).GetId
+//@   ensures result == sensor.Config.ID
+//@   modifies nothing
+//@ func (*FileSensor).GetValue
+//@   ghostret lastValue := result
+//@   ensures same(lastValue, result)
+//@   props C08
+//@   returns (result, err)
+//@   requires sensor.Config.File != nil
+//@   ensures[C08.propagate] lastReadFailed ==> err != nil
+//@   ensures[C08.finite]    err == nil ==> fin(result)
+//@   modifies lastReadFailed, lastValue
+//@ func (*FileSensor).GetMovingAvg
+//@   ensures same(avg, sensor.MovingAvg)
+//@   modifies nothing
+//@ func (*FileSensor).SetMovingAvg
+//@   ensures same(sensor.MovingAvg, avg)
+//@   modifies sensor.MovingAvg
+
+// ---- cmd -----------------------------------------------------------------------------------------
+//@ func (*CmdSensor).GetId
+//@   ensures result == sensor.Config.ID
+//@   modifies nothing
+//@ func (*CmdSensor).GetValue
+//@   ghostret lastValue := result
+//@   ensures same(lastValue, result)
+//@   props C08 C19
+//@   returns (result, err)
+//@   requires sensor.Config.Cmd != nil
+//@   ensures[C08.finite]    err == nil ==> fin(result)
+//@   modifies procWorld, started, lastValue
+//@ func (*CmdSensor).GetMovingAvg
+//@   ensures same(avg, sensor.MovingAvg)
+//@   modifies nothing
+//@ func (*CmdSensor).SetMovingAvg
+//@   ensures same(sensor.MovingAvg, avg)
+//@   modifies sensor.MovingAvg
+
+// ---- virtual ---------------------------------------------------------------------------------------
+//@ func (VirtualSensor).GetId
+//@   modifies nothing
+//@ func (VirtualSensor).GetValue
+//@   ghostret lastValue := result
+//@   ensures same(lastValue, result)
+//@   returns (result, err)
+//@   ensures err == nil && same(result, sensor.Value)
+//@   modifies lastValue
+//@ func (VirtualSensor).GetMovingAvg
+//@   ensures same(avg, sensor.Value)
+//@   modifies nothing
+//@ func (*VirtualSensor).SetMovingAvg
+//@   ensures same(sensor.Value, avg)
+//@   modifies sensor.Value
